@@ -17,10 +17,13 @@ CODE = {c.name: i + 1 for i, c in enumerate(COLOURS)}
 
 RULE = ("cycles of 1..8 elements (durations 1..50, also 1, 10^6), offsets 0..200 (also 10^5), time steps from -3D to "
         "50D incl. every phase boundary -1/0/+1, t < offset, many periods later; int and numpy int time steps; "
-        "TrafficLight built by constructor, by the cycle setter, by deepcopy and by pickle. distinct = distinct case "
+        "TrafficLight built by constructor, by the cycle setter, by deepcopy and by pickle; cycle built by constructor or "
+        "through its time_offset / cycle_elements setters before the first query. distinct = distinct case "
         "dicts; all cases are non-trivial (every one decides a window)")
 ASSUME = ["Python/numpy integer arithmetic is exact (model over Z)"]
 ROUTES = ["ctor", "setter", "deepcopy", "pickle", "kw_order"]
+# how the cycle itself comes into being (all before the first query; staleness after a query is C11)
+CYCLE_ROUTES = ["ctor", "ctor", "offset_setter", "elements_setter", "both_setters", "copy"]
 
 
 def gen(rng, n):
@@ -47,13 +50,27 @@ def gen(rng, n):
         ts.add(0)
         for t in ts:
             cases.append({"op": "state", "els": els, "o": o, "t": int(t), "tt": rng.choice(["int", "int", "np.int64"]),
-                          "route": rng.choice(ROUTES)})
+                          "route": rng.choice(ROUTES), "croute": rng.choice(CYCLE_ROUTES)})
     return cases[:n]
 
 
 def build(c):
-    cyc = TrafficLightCycle([TrafficLightCycleElement(TrafficLightState[n], d) for n, d in c["els"]],
-                            time_offset=c["o"])
+    els = [TrafficLightCycleElement(TrafficLightState[n], d) for n, d in c["els"]]
+    cr = c.get("croute", "ctor")
+    if cr == "offset_setter":
+        cyc = TrafficLightCycle(els)
+        cyc.time_offset = c["o"]
+    elif cr == "elements_setter":
+        cyc = TrafficLightCycle([TrafficLightCycleElement(TrafficLightState.RED, 1)], time_offset=c["o"])
+        cyc.cycle_elements = els
+    elif cr == "both_setters":
+        cyc = TrafficLightCycle()
+        cyc.cycle_elements = els
+        cyc.time_offset = c["o"]
+    else:
+        cyc = TrafficLightCycle(els, time_offset=c["o"])
+    if cr == "copy":
+        cyc = copy.deepcopy(cyc)
     pos = np.array([1.0, 2.0])
     r = c["route"]
     if r == "setter":
@@ -98,7 +115,7 @@ def oracle(c):
     exp = expected(c)
     oc, ol = observe(c)
     if oc != exp:
-        return ("cycle:" + ("raises" if oc.startswith("exc") else "wrong state"),
+        return (f"cycle:{c.get('croute', 'ctor')}:" + ("raises" if oc.startswith("exc") else "wrong state"),
                 f"cycle {c['els']} offset {c['o']} t={c['t']}: expected {exp}, got {oc}")
     if ol != oc:
         return (f"light:{c['route']}:disagrees with its cycle",
